@@ -54,6 +54,8 @@ def gen(rng, cls, max_src):
     if cls == "early":
         # tiny sources (<= 3 messages: all their datums fit in the channel, the worker ends at once)
         return mu.gen_input(rng, rng.randrange(2, 7), rng.choice([1, 2, 3]), opts_choices=OPTS)
+    if cls == "subus":
+        return mu.subus_input(rng, rng.choice([2, 3, 4, 6]), rng.choice([3, 6, 12]), opts_choices=OPTS)
     if cls == "wide":
         return mu.gen_input(rng, rng.randrange(9, max_src + 1), rng.choice([4, 12]), opts_choices=OPTS)
     return mu.gen_input(rng, rng.randrange(1, 9), rng.choice([4, 10, 40]), opts_choices=OPTS)
@@ -95,7 +97,7 @@ def run(ctx):
         inputs.append(mu.fixture_input(rng, fams))
         classes.append("fixture")
     for k in range(n_inputs):
-        cls = ["mix", "mix", "early", "big", "mix", "early", "wide", "mix"][k % 8]
+        cls = ["mix", "subus", "early", "big", "mix", "early", "wide", "subus"][k % 8]
         inp = gen(rng, cls, max_src)
         mu.write_input(inp, os.path.join(scratch, "in%04d" % k), rng.randrange(1000))
         inputs.append(inp)
@@ -160,7 +162,7 @@ def run(ctx):
             obs = mu.observed_order(inp, out)
             spec_cases.append(mu.coq_case(mu.instants(inp), obs))
             spec_idx.append(ii)
-            if rc != 0 or out != exp_bytes:
+            if rc != 0 or (out != exp_bytes if exp_bytes is not None else obs != exp_order):
                 fail_n += 1
                 ctx.failure(mu.save_failure(PROP, ctx.seed, inp, plans[0], exp_bytes, fail_n),
                             dict(rc=0, messages=len(exp_order), order_head=exp_order[:50]),
@@ -213,12 +215,14 @@ def run(ctx):
     walls = sorted(r["wall"] for r in results)
     ctx.coverage.update(
         evaluations=len(results), distinct_nontrivial=nontriv,
-        rule="input classes: corpus (corpus/C06, hand-picked ties), fixture (2-6 utmp / evtx / journal files of /repo/logs in several compressed variants; instants read back from s4's own -u -d prefix), mix (1-8 text sources, 0-40 messages, ties, gz/xz, non-chronological, emptied by -a/-b, failing sources without timestamps, directory argument), early (2-6 sources of 1-3 messages: a worker ends before others start; one source delayed 20 ms per send), big (2-4 sources of 60-300 messages: channels of capacity 5 stay full under a slow coordinator), wide (9-%d sources); each input under %d planned schedules (no delay; random per-send delays; slow coordinator poll_us; one slow source; combinations). distinct_nontrivial counts DISTINCT (input, coordinator event sequence) pairs over inputs with >= 2 sources, i.e. distinct observed interleavings" % (max_src, n_plans),
+        rule="instants are nanoseconds (timestamps with 6-9 fractional digits); input classes: subus (sources whose messages fall inside the same microsecond, the later-named source holding the earlier one, mixed with exact ties), corpus (corpus/C06, hand-picked ties), fixture (2-6 utmp / evtx / journal files of /repo/logs in several compressed variants; instants read back from s4's own -u -d prefix), mix (1-8 text sources, 0-40 messages, ties, gz/xz, non-chronological, emptied by -a/-b, failing sources without timestamps, directory argument), early (2-6 sources of 1-3 messages: a worker ends before others start; one source delayed 20 ms per send), big (2-4 sources of 60-300 messages: channels of capacity 5 stay full under a slow coordinator), wide (9-%d sources); each input under %d planned schedules (no delay; random per-send delays; slow coordinator poll_us; one slow source; combinations). distinct_nontrivial counts DISTINCT (input, coordinator event sequence) pairs over inputs with >= 2 sources, i.e. distinct observed interleavings" % (max_src, n_plans),
         samples=[dict(mu.describe(inputs[i]), cls=classes[i], plans=[results[ri]["plan"] for ri in by_input[i]][:4],
                       distinct_interleavings=len(distinct_traces.get(i, ()))) for i in (0, n_fixed, n_fixed + 2, n_fixed + 3)],
         inputs=len(inputs), plans_per_input=n_plans, input_class_histogram=cls_hist,
         traces_validated_against_impl=len(tr_cases) - len(tbad), trace_disagreements=len(tbad),
         schedule_dependent_inputs=sched_dep, hangs=hangs,
+        inputs_with_utmp_source_last_record_not_newest=sum(1 for inp in inputs if not inp.get("fixture") and mu.describe(inp)["physically_last_record_not_newest"]),
+        inputs_with_sub_microsecond_inversions=sum(1 for inp in inputs if not inp.get("fixture") and mu.subus_inversions(inp) > 0),
         runs_where_a_source_finished_before_another_started=fbs,
         distinct_interleavings_per_input_max=max((len(v) for v in distinct_traces.values()), default=0),
         messages_total=sum(len(l) for inp in inputs for l in (inp.get("srcs", []) if inp.get("fixture") else mu.instants(inp))),
